@@ -4,6 +4,7 @@ package px
 
 import (
 	"context"
+	"sync"
 
 	"go.uber.org/zap"
 
@@ -55,6 +56,10 @@ func (p *Probe) Run(ctx context.Context, r controller.Runtime, _ *zap.Logger) er
 	}
 }
 
+// recMu guards the probes' records when queue workers run on real threads (race-detector pass); never held
+// across a scheduling point.
+var recMu sync.Mutex
+
 // QProbe is a controller.QController with callbacks.
 type QProbe struct {
 	NameV       string
@@ -73,7 +78,9 @@ func (p *QProbe) Settings() controller.QSettings { return p.SettingsV }
 
 // Reconcile implements controller.QController.
 func (p *QProbe) Reconcile(ctx context.Context, _ *zap.Logger, r controller.QRuntime, ptr resource.Pointer) error {
+	recMu.Lock()
 	p.Reconciles = append(p.Reconciles, string(ptr.Type())+"/"+string(ptr.ID()))
+	recMu.Unlock()
 	if p.OnReconcile != nil {
 		return p.OnReconcile(ctx, r, ptr)
 	}
@@ -82,7 +89,9 @@ func (p *QProbe) Reconcile(ctx context.Context, _ *zap.Logger, r controller.QRun
 
 // MapInput implements controller.QController.
 func (p *QProbe) MapInput(ctx context.Context, _ *zap.Logger, r controller.QRuntime, md controller.ReducedResourceMetadata) ([]resource.Pointer, error) {
+	recMu.Lock()
 	p.Maps = append(p.Maps, string(md.Type())+"/"+string(md.ID()))
+	recMu.Unlock()
 	if p.OnMap != nil {
 		return p.OnMap(ctx, r, md)
 	}
